@@ -4,6 +4,7 @@ import (
 	"fmt"
 	"go/token"
 	"go/types"
+	"os"
 	"sort"
 	"strings"
 
@@ -157,6 +158,9 @@ type gdNilEnv struct {
 	owners         map[*types.Var]string
 	entryMemo      map[gdEntryKey]int
 	entryWhy       map[gdEntryKey][]string
+	// reviewed sites: fingerprint → indices into obs; index → the obligation as it would be reported
+	reviewed   map[string][]int
+	unreviewed map[int]Obligation
 }
 
 func gdNilable(t types.Type) bool {
@@ -242,7 +246,7 @@ func ruleNilField(c *Ctx) []Obligation {
 			modFns = append(modFns, fn)
 		}
 	}
-	sort.Slice(modFns, func(i, j int) bool { return gdPosOfFunc(modFns[i]) < gdPosOfFunc(modFns[j]) })
+	gdSortFuncs(c, modFns)
 	assignedNil := map[*types.Var]bool{}
 	owners := gdFieldOwners(c)
 	for _, fn := range modFns {
@@ -298,6 +302,7 @@ func ruleNilField(c *Ctx) []Obligation {
 	for _, fn := range scope {
 		env.function(fn)
 	}
+	gdReviewUnique(env.obs, env.reviewed, env.unreviewed)
 	var names []string
 	for f, ev := range env.cand {
 		names = append(names, fmt.Sprintf("%s (%s)", owners[f], ev))
@@ -461,9 +466,20 @@ func (env *gdNilEnv) owner(f *types.Var) string {
 }
 
 // gdNilReviewed: uses that guard dominance cannot decide, reviewed by hand
-// (one named construct each, with the reason).
+// (one construct each, with the reason). Looked up by the rename-stable
+// fingerprint of the site (see gdTrapReviewed), not by the key text.
 var gdNilReviewed = map[string]string{
-	"analyzer.(*Analyzer).matchExpression|DefaultOrLiteral.Literal: self.expression(lit.Literal)": "universally quantified flag guard: the preceding loop sets containsDefault when any `lit` of the arm is not a literal and the arm is skipped (`continue`) in that case, so every lit.Literal of the second loop is non-nil; a ∀-guard carried by a flag is outside dominance reasoning",
+	// analyzer.(*Analyzer).matchExpression|DefaultOrLiteral.Literal: self.expression(lit.Literal)
+	"analyzer.(*Analyzer).ƒfunc(ast.MatchExpression) (ast.AnalyzedMatchExpression)|DefaultOrLiteral.Literal: $*analyzer.Analyzer.ƒfunc(ast.Expression) (ast.AnalyzedExpression)($ast.DefaultOrLiteral.Literal)": "universally quantified flag guard: the preceding loop sets containsDefault when any `lit` of the arm is not a literal and the arm is skipped (`continue`) in that case, so every lit.Literal of the second loop is non-nil; a ∀-guard carried by a flag is outside dominance reasoning",
+}
+
+// ownerShape: owner() in rename-stable form (an unexported field by its type).
+func (env *gdNilEnv) ownerShape(f *types.Var) string {
+	o := env.owner(f)
+	if f.Exported() {
+		return o
+	}
+	return strings.TrimSuffix(o, f.Name()) + "·" + gdTypeSig(f.Type())
 }
 
 func (env *gdNilEnv) site(fn *ssa.Function, eq *gdEq, f *types.Var, v ssa.Value, at ssa.Instruction, why string) {
@@ -488,7 +504,17 @@ func (env *gdNilEnv) site(fn *ssa.Function, eq *gdEq, f *types.Var, v ssa.Value,
 		add(Discharged, why+": "+how)
 		return
 	}
-	if reason, ok := gdNilReviewed[key]; ok {
+	violated := Obligation{Key: key, Pos: env.c.Pos(pos), Status: Violated, Nontrivial: true, Detail: fmt.Sprintf("%s of %s without a dominating non-nil test or non-nil assignment (also not established by every caller); the field is optional (%s)", why, gdPathOf(v).String(), env.cand[f])}
+	fp := gdJoinKey(env.nm.funcShape(fn), env.nm.caseCtx(pos), env.ownerShape(f)+": "+env.nm.shapeAt(pos))
+	if os.Getenv("GD_DEBUG") != "" {
+		fmt.Fprintf(os.Stderr, "fingerprint %s => %s\n", key, fp)
+	}
+	if reason, ok := gdNilReviewed[fp]; ok {
+		if env.reviewed == nil {
+			env.reviewed, env.unreviewed = map[string][]int{}, map[int]Obligation{}
+		}
+		env.reviewed[fp] = append(env.reviewed[fp], len(env.obs))
+		env.unreviewed[len(env.obs)] = violated
 		add(Info, "reviewed site (not decided by guard dominance): "+reason)
 		return
 	}
